@@ -36,11 +36,12 @@ def run(ctx, replay=None):
         c = np.array(case['coords'], float)
         v = np.array(case['values'], float)
         has_dups = len(np.unique(c, axis=0)) < len(c)
-        kw = dict(n_lags=case['n_lags'], estimator=case['estimator'], fit_method='manual', fit_range=1.0, fit_sill=1.0)
+        kw = dict(n_lags=case['n_lags'], estimator=case['estimator'], fit_method='manual', fit_range=1.0, fit_sill=1.0, dist_func=case.get('dist_func', 'euclidean'))
+        ctx.count('dist_func', case.get('dist_func', 'euclidean'))
         done = 0
         try:
             # shared explicit edges so that only the selection matters
-            dall = pdist(c)
+            dall = pdist(c, case.get('dist_func', 'euclidean'))
             edges = np.linspace(0, float(dall.max()), case['n_lags'] + 1)[1:]
             # (1) tolerance 180, no bandwidth limit (compass) = isotropic variogram
             for az in (case['azimuth'], 0, 90, 180):
@@ -49,6 +50,12 @@ def run(ctx, replay=None):
                 sig = {'what': 'tolerance-180-vs-isotropic', 'duplicates': bool(has_dups)}
                 same(ctx, dict(case, azimuth_used=az), 'tolerance 180 vs the isotropic variogram', triple(D180), triple(ISO), sig)
                 done += 1
+            # the same for the triangle search area with a bandwidth that cannot exclude any pair (offsets are at most the largest distance)
+            wide = 2.5 * float(pdist(c).max())
+            T180 = DirectionalVariogram(c, v, azimuth=case['azimuth'], tolerance=180, directional_model='triangle', bandwidth=wide, bin_func=edges, **kw)
+            same(ctx, dict(case, bandwidth_used=wide), 'tolerance 180, triangle with a bandwidth beyond every offset, vs the isotropic variogram', triple(T180), triple(ISO),
+                 {'what': 'tolerance-180-vs-isotropic', 'duplicates': bool(has_dups)})
+            done += 1
             # the same with derived (even) edges
             D180 = DirectionalVariogram(c, v, azimuth=case['azimuth'], tolerance=180, directional_model='compass', bin_func='even', **kw)
             ISO = Variogram(c, v, bin_func='even', **kw)
@@ -56,7 +63,7 @@ def run(ctx, replay=None):
             # (2) azimuth and azimuth +- 180
             az = case['azimuth']
             az2 = az + 180 if az <= 0 else az - 180
-            bwv = float(dc.build(case).bandwidth)
+            bwv = dc.resolved_bandwidth(case)
             A = dc.build(case, bandwidth=bwv)
             B = dc.build(dict(case, azimuth=az2), bandwidth=bwv)
             sel, near, deg = dc.geometry(case, bandwidth=bwv)
@@ -64,7 +71,7 @@ def run(ctx, replay=None):
                 same(ctx, case, 'azimuth %r vs %r' % (az, az2), triple(A), triple(B), {'what': 'azimuth-180'})
                 done += 1
             # (3) rotation of coordinates and azimuth by the same angle (azimuth is counted clockwise)
-            for phi in (90, 180, -90, 36.86989764584402):
+            for phi in ((90, 180, -90, 36.86989764584402) if case.get('dist_func', 'euclidean') == 'euclidean' else (90, 180, -90)):
                 r = math.radians(phi)
                 cr = np.column_stack((c[:, 0] * math.cos(r) - c[:, 1] * math.sin(r), c[:, 0] * math.sin(r) + c[:, 1] * math.cos(r)))
                 if phi in (90, 180, -90):
@@ -116,4 +123,4 @@ def run(ctx, replay=None):
     ctx.extra['rule'] = ('2-D point sets (lattice, dyadic, duplicates, clustered) x azimuths: tolerance 180 vs isotropic (4 azimuths, explicit and derived edges), azimuth vs azimuth+-180, '
                          'rotation by 90/180/-90/atan(3/4) degrees of coordinates and azimuth, sector tilings of width 90/60/45/30/20; pairs on a sector / tolerance boundary excluded where the property says so; '
                          'non-trivial = at least 5 symmetry comparisons made')
-    return core.finish(ctx, coq, dc.TRUSTED, ['sector cover/partition clauses are tested on the implementation, not proved'])
+    return core.finish(ctx, coq, dc.TRUSTED, ['the sector clauses are proved for the compass mask (C13_sectors_cover, C13_sectors_overlap_on_boundary) and additionally run on the implementation'])
